@@ -366,6 +366,58 @@ pub fn search_c11(seed: u64, ctx: &mut Ctx) -> Option<J> {
             return None;
         }
     }
+    // orders above the worker-thread count and not a multiple of the chunk
+    // size (AdjacencyList::complement / union and AdjacencyMap::union chunk
+    // their rows by available_parallelism()): complement, converse and union
+    // on path, cycle, star and a random digraph, every representation that
+    // implements the operation
+    for order in THREAD_ORDERS {
+        let shapes: Vec<G> = vec![
+            structured("path", order, &[]),
+            structured("cycle", order, &[]),
+            structured("star", order, &[]),
+            random_g(&mut rng, order, &[]),
+        ];
+        for (i, g0) in shapes.iter().enumerate() {
+            for repr in ALL_REPRS {
+                let mut g = g0.clone();
+                reweigh(&mut rng, &mut g, repr);
+                if let Some(f) = ctx.eval(&unary(repr, "converse", g.clone())) {
+                    return Some(f);
+                }
+                if !UNWEIGHTED.contains(&repr) {
+                    continue;
+                }
+                if let Some(f) = ctx.eval(&unary(repr, "complement", g.clone())) {
+                    return Some(f);
+                }
+                // union: equal order (another shape), a different order from
+                // the same list, and one operand much larger than the other
+                let other_order = THREAD_ORDERS[(i + 1 + rng.below(7)) % THREAD_ORDERS.len()];
+                let others = [
+                    shapes[(i + 1) % shapes.len()].clone(),
+                    random_g(&mut rng, other_order, &[]),
+                    structured("circuit", 3, &[]),
+                ];
+                for (k, h) in others.into_iter().enumerate() {
+                    for swap in [false, true] {
+                        let (a, b) = if swap { (h.clone(), g.clone()) } else { (g.clone(), h.clone()) };
+                        let mut c = unary(repr, "union", a);
+                        c.h = Some(b);
+                        if k == 1 && !swap {
+                            c.k = Some(structured("star", 20, &[]));
+                        }
+                        if let Some(f) = ctx.eval(&c) {
+                            return Some(f);
+                        }
+                    }
+                }
+            }
+        }
+        if ctx.expired() {
+            return None;
+        }
+    }
     // filter_vertices keeping a vertex that loses all its neighbours
     for (g, keeps) in [
         (structured("star", 6, &[]), vec![vec![0], vec![1, 2, 3, 4, 5], vec![0, 3], vec![3]]),
@@ -680,6 +732,61 @@ pub fn search_c12(seed: u64, ctx: &mut Ctx) -> Option<J> {
                     return None;
                 }
             }
+        }
+    }
+    // orders above the worker-thread count and not a multiple of the chunk
+    // size (AdjacencyList::is_semicomplete chunks its rows by
+    // available_parallelism()): is_complete / is_semicomplete / is_tournament
+    // and the other predicates on (a) the complete digraph, (b) complete minus
+    // BOTH arcs of one unordered pair (first two, middle two, last two
+    // vertices, and (last, first)), (c) tournaments, (d) a tournament plus
+    // one reverse arc at the tail end
+    for order in THREAD_ORDERS {
+        let n = order;
+        let complete = make_model("complete", n);
+        let mut cases: Vec<G> = vec![complete.clone()];
+        for (u, v) in [(0, 1), (n / 2 - 1, n / 2), (n / 2, n / 2 + 1), (n - 2, n - 1), (n - 1, 0), (n - 1, n / 2)] {
+            let mut g = complete.clone();
+            let _ = g.arcs.remove(&(u, v));
+            let _ = g.arcs.remove(&(v, u));
+            cases.push(g);
+            // only one arc of the pair missing: still semicomplete
+            let mut g = complete.clone();
+            let _ = g.arcs.remove(&(u.max(v), u.min(v)));
+            cases.push(g);
+        }
+        for flip in [0, 2, 3] {
+            let t = tournament(n, flip);
+            cases.push(t.clone());
+            // plus one reverse arc at the tail end / at the front / in the middle
+            for (u, v) in [(n - 2, n - 1), (0, 1), (n / 2, n - 1)] {
+                let mut g = t.clone();
+                let _ = g.arcs.insert((u, v), 1);
+                let _ = g.arcs.insert((v, u), 1);
+                cases.push(g);
+            }
+            // minus the arc between the last two vertices
+            let mut g = t.clone();
+            let _ = g.arcs.remove(&(n - 2, n - 1));
+            let _ = g.arcs.remove(&(n - 1, n - 2));
+            cases.push(g);
+        }
+        for g0 in cases {
+            for repr in ALL_REPRS {
+                let mut g = g0.clone();
+                reweigh(&mut rng, &mut g, repr);
+                let c = C12 {
+                    repr: repr.to_string(),
+                    g,
+                    h: None,
+                };
+                if let Some(f) = ctx.eval(&c) {
+                    return Some(f);
+                }
+            }
+        }
+        if ctx.expired() {
+            return None;
         }
     }
     for i in 0..8000usize {
